@@ -260,8 +260,15 @@ def run_property(prop, spec, tier, seed, only=None):
             msg = ""
             if v == "inconclusive":
                 e["reasons"] = r.get("reasons")
-                inconclusive = True
                 msg = "; ".join(r.get("reasons") or [])[:300]
+                resource = all(re.search(r"timed out|Out of memory|out of memory|status ERROR|cbmc exit code|cbmc error|unparsable cbmc output", x)
+                               for x in (r.get("reasons") or ["?"]))
+                if h.attrs.get("optional") == "1" and resource:
+                    # exploratory obligation of the thorough tier: resources exhausted => NOT decided, outside this run's
+                    # claim (listed as such in evidence); any other kind of inconclusiveness still fails the run
+                    e["verdict"] = "undecided-resources"
+                else:
+                    inconclusive = True
             elif h.kind == "witness":
                 # vacuity twin: its final assert(false) must be violated
                 ok = v == "fail" and any("WITNESS" in f["desc"] for f in r["failures"])
